@@ -398,6 +398,10 @@ var c04bFixed = []string{
 	"a{font:small-caps 700 condensed medium/1 sans-serif}", "a{font:normal small \"A\"}", "a{font:bold normal 1e1px/normal \"x y\"}",
 	"a{font:12px normal,b}", "a{font:normal,b}", ".cla[id ^= L] { x:y; }", "input[type=\"radio\" i]{x:y}",
 	"[class^=icon-] i[class^=icon-],i[class*=\" icon-\"]{x:y}", "@import url(", "@import url( ", "@import url(\n//url\n);",
+	// a933f35: tokens that minification would glue, hexadecimal escapes in front of a space
+	"a{background:linear-gradient(rgb(255,0,0)10%,blue)}", "a{width:foo(1.0.5)}", "a{width:foo(a1.0)}", "a{width:foo(8.24E3-255)}",
+	"a{font-family:a\\31  b,c}", "a{animation-name:x\\41 y}", "a{content:\"\\31\\\n2\"}", "a{x:a\\31  (b)}", "a{grid-area:\\31 a / b\\32  c}",
+	"a{transform:foo(1e1-+0.5)}", "a{width:calc(1px + 2px)}", "a{width:calc(1px - -2px)}",
 }
 
 var c04bFixedInline = []string{"c:d", "c:d;e:f;", "font:bold 12px a;background:none", "--x: 1 ;c:d", "c:d;e", "*zoom:1;_h:2", ";;c:d", "@media x{a{c:d}}e:f", "/* c */c:d", "c:d}e:f"}
